@@ -4,7 +4,7 @@
 use crate::common::*;
 use crate::gen::*;
 use crate::rng::{derive, Rng};
-use crate::simenv::{self, EnvScript, Envelope, Hooks, SimCore};
+use crate::simenv::{self, EnvScript, Envelope, Hooks};
 use crate::spec::*;
 use crate::statecode;
 use pushr::push::instructions::InstructionSet;
@@ -158,24 +158,23 @@ struct WorldHooks {
 }
 
 impl Hooks for WorldHooks {
-    fn pre(&mut self, core: &mut SimCore, _idx: usize, st: &mut PushState) -> bool {
-        let ev = core.events - 1; // events was incremented for this one
+    fn pre(&mut self, ev: u64, _name: &str, st: &mut PushState) -> bool {
         while self.next < self.hosts.len() && self.hosts[self.next].0 <= ev {
             match &self.hosts[self.next].1 {
                 HostOp::Produce { msg, force } => {
                     if *force {
                         if st.input_stack.is_full() {
-                            core.fault("queue_overwrite");
+                            simenv::fault("queue_overwrite");
                         }
                         st.input_stack.push_force(msg.to_msg());
                     } else {
                         if st.input_stack.is_full() {
-                            core.fault("queue_overrun");
+                            simenv::fault("queue_overrun");
                         }
                         st.input_stack.push(msg.to_msg());
                     }
                     if msg.body.is_empty() {
-                        core.fault("empty_body_message");
+                        simenv::fault("empty_body_message");
                     }
                 }
                 HostOp::Consume => {
@@ -185,7 +184,7 @@ impl Hooks for WorldHooks {
                 }
                 HostOp::FlushInput => {
                     st.input_stack.flush();
-                    core.fault("queue_flush_midstream");
+                    simenv::fault("queue_flush_midstream");
                 }
             }
             self.next += 1;
